@@ -48,6 +48,8 @@ RULE = ("scripted steppers walking through prescribed state / observable sequenc
         "oracle and model; tempering variable / spin-product helpers on mock replicas with prescribed spin states; isingbond "
         "graphs include J = 0 and |J| = 2^-60 edges (first/middle/last/all), observables over ALL listed edges, n_bonds() == "
         "edges.len(). "
+        "A few cases per mode use 65..130 spins with 6..13 samples (products with indices >= 64: [63,64], mixed, all high, "
+        "repeated high; variable helper; bonds on sites >= 64; tempering spin helpers). "
         "Non-trivial = all columns non-constant (oracle applies); distinct = distinct input line.")
 
 
